@@ -1,4 +1,4 @@
-import OntVerif.Proofs.Bloom
+import OntVerif.Proofs.BloomBook
 /-!
 # C43 — Block log blooms never miss a log of the block; the section bit index agrees with the block blooms
 
@@ -46,5 +46,120 @@ theorem C43_section_agrees (S : Nat) (hS : S % 8 = 0) (blooms : List Bloom) (hle
 
 /-- a generator for a section size that is not a multiple of 8 is refused (the model keeps the error branch) -/
 example : sectionVectors 12 (List.replicate 12 0) = none := by simp [sectionVectors, newGen]
+
+/-- every committed height belongs to exactly one section -/
+theorem C43_one_section (S : Nat) (hS : 0 < S) (h : Nat) : ∃ k, (k * S ≤ h ∧ h < k * S + S) ∧ ∀ k', (k' * S ≤ h ∧ h < k' * S + S) → k' = k := by
+  refine ⟨h / S, ⟨Nat.div_mul_le_self h S, ?_⟩, fun k' hk => ?_⟩
+  · have := Nat.lt_mul_div_succ h hS
+    rw [Nat.mul_add, Nat.mul_one, Nat.mul_comm] at this; exact this
+  · exact (Nat.div_eq_of_lt_le hk.1 (by rw [Nat.succ_mul]; exact hk.2)).symm
+
+/-! ## bookkeeping of the block store
+
+A history is a start (`fresh`: this build creates the genesis block; `legacy cur`: a block store written up to `cur` by a build
+without the bloom index) followed by any sequence of block commits and reopenings.  `given h` is the bloom of block `h`
+(blocks below `adh` carry no EVM log: the transaction pool refuses EIP-155 transactions there). -/
+
+/-- what the final state must satisfy -/
+def Good (S adh : Nat) (given : Nat → Bloom) (st : Start) (s : St) : Prop :=
+  ∃ c, s.store.cur = some c ∧
+    -- every height from the filter start on reads back the bloom of its block (`GetBloomData`)
+    (∀ h, s.mem.filterStart ≤ h → h ≤ c → getBloomData s.store h = given h) ∧
+    -- every complete section from the filter start on was indexed from exactly the blooms of its heights, in order
+    (∀ k, s.mem.filterStart ≤ k * S → k * S + S ≤ c + 1 → lookup k s.store.index = some (secBlooms given (k * S) S)) ∧
+    -- on a chain built by this build from genesis that covers every height at which EVM logs can exist
+    (st = .fresh →
+      (∀ h, adh ≤ h → h ≤ c → getBloomData s.store h = given h) ∧
+      (∀ k, adh / S * S ≤ k * S → k * S + S ≤ c + 1 → lookup k s.store.index = some (secBlooms given (k * S) S)))
+
+/-- the property for one variant of the code: no history panics (nil dereference of a missing cache entry in `SaveBloomData`,
+`panic(err)` in `PutBloomIndex`) and every history ends in a good state — for every section size, chain, start and schedule -/
+def C43_full_statement (v : Variant) : Prop :=
+  ∀ (S adh : Nat) (given : Nat → Bloom) (st : Start) (ops : List Op), 0 < S → S % 8 = 0 → (∀ h, h < adh → given h = 0) →
+    match run v S adh given st ops with
+    | none => False
+    | some s => Good S adh given st s
+
+private theorem good_of_inv {S adh : Nat} {given : Nat → Bloom} {st : Start} {lo c : Nat} {s : St} (I : Inv S given lo c s)
+    (hf : st = .fresh → lo ≤ minFilterStart S adh) : Good S adh given st s := by
+  refine ⟨c, I.st.cur, fun h a b => I.st.stored h (by have := I.lo_fs; omega) b,
+    fun k a b => I.st.index k (by have := I.lo_fs; omega) b, fun e => ⟨fun h a b => ?_, fun k a b => ?_⟩⟩
+  · exact I.st.stored h (by have := hf e; have := minFilterStart_le S adh; omega) b
+  · exact I.st.index k (by have := hf e; unfold minFilterStart at this; omega) b
+
+/-- the two halves together: the bit vectors `PutBloomIndex` derives from the bloom list recorded for section `k` of a good state
+are the transposition of the blooms of the blocks `k*S … k*S+S-1` -/
+theorem C43_index_bits (S : Nat) (hS8 : S % 8 = 0) (given : Nat → Bloom) (k : Nat) :
+    ∃ vs, sectionVectors S (secBlooms given (k * S) S) = some vs ∧ ∃ hv : vs.length = 2048,
+      ∀ i (hi : i < 2048) j (_ : j < S), (vs[i]'(by omega)).getMsbD j = (given (k * S + j)).getLsbD i := by
+  obtain ⟨vs, e, hv, h⟩ := C43_section_agrees S hS8 (secBlooms given (k * S) S) (secBlooms_length given S (k * S))
+  refine ⟨vs, e, hv, fun i hi j hj => ?_⟩
+  rw [h i hi j hj, secBlooms_getElem]
+
+/-- **Bookkeeping, repaired code** (`fixes/C43-filterstart-height.patch`): the full statement. -/
+theorem C43_bookkeeping : C43_full_statement .sound := by
+  intro S adh given st ops hS h8 hg
+  have hS2 : 2 ≤ S := by omega
+  unfold run
+  cases st with
+  | fresh =>
+    obtain ⟨s0, e0, i0, k0⟩ := start_fresh_sound (given := given) adh hS2
+    obtain ⟨s', c', e1, i1⟩ := runOps_keyed .sound adh hS h8 ops i0 k0
+    simp only [e0, e1]
+    exact good_of_inv i1 (fun _ => Nat.le_refl _)
+  | legacy cur0 =>
+    obtain ⟨s0, lo, e0, i0, k0⟩ := start_legacy_sound (given := given) adh cur0 hS hg
+    obtain ⟨s', c', e1, i1⟩ := runOps_keyed .sound adh hS h8 ops i0 k0
+    simp only [e0, e1]
+    exact good_of_inv i1 (fun e => by cases e)
+
+/-- **Bookkeeping, code as shipped**: the statement holds for every chain this build starts from its own genesis block — whatever
+the section size, the chain length, the blooms and the schedule of restarts (including the restart that replaces the filter start 0
+by the section count `ceil(h/S)`, and main-net shapes where heights below `MinFilterStart` are skipped). -/
+theorem C43_bookkeeping_partial (S adh : Nat) (given : Nat → Bloom) (ops : List Op) (hS : 0 < S) (h8 : S % 8 = 0) :
+    match run .asShipped S adh given .fresh ops with
+    | none => False
+    | some s => Good S adh given .fresh s := by
+  have hS2 : 2 ≤ S := by omega
+  unfold run
+  obtain ⟨s0, e0, i0⟩ := start_fresh_asShipped (given := given) adh hS2
+  obtain ⟨s', lo', c', e1, i1, b1⟩ := runOps_asShipped adh hS h8 ops i0 (Nat.zero_le _)
+  simp only [e0, e1]
+  exact good_of_inv i1 (fun _ => b1)
+
+/-- **As shipped, legacy data**: a block store written up to height 9 by a build without the index (sections of 8 blocks, `adh` = 0)
+gets the filter start `(9+7)/8 = 2` — a section count — so height 2 is inside the advertised range `[filter start, current]` but reads
+back the empty bloom although its block has a log.  (On the real code: `B 0 j10000 …`, filter start 3 instead of 12288.) -/
+theorem C43_asShipped_counterexample : ¬ C43_full_statement .asShipped := by
+  intro h
+  have e : ∃ s, run .asShipped 8 0 exGiven (.legacy 9) [] = some s ∧ s.mem.filterStart = 2 ∧ s.store.cur = some 9 ∧
+      s.store.blooms = ∅ := by
+    refine ⟨_, rfl, ?_, ?_, ?_⟩ <;> simp [loadBloomBits, filterStartOf, initStart, emptyStore]
+  obtain ⟨s, es, e1, e2, e3⟩ := e
+  have := h 8 0 exGiven (.legacy 9) [] (by omega) (by omega) (fun _ hlt => by omega)
+  rw [es] at this
+  obtain ⟨c, hc, h1, _⟩ := this
+  rw [e2] at hc
+  have h2 := h1 2 (by omega) (by simp at hc; omega)
+  simp [getBloomData, e3, exGiven] at h2
+
+/-- the hypotheses are satisfiable and the statements are not vacuous: a concrete history (sections of 8 blocks) that crosses a
+section boundary, restarts in the middle of the next section and completes it runs without panic, in both variants -/
+example : (run .asShipped 8 0 exGiven .fresh (List.replicate 9 .save ++ [.reopen] ++ List.replicate 6 .save)).isSome = true ∧
+    (run .sound 8 0 exGiven .fresh (List.replicate 9 .save ++ [.reopen] ++ List.replicate 6 .save)).isSome = true ∧
+    (run .sound 8 0 exGiven (.legacy 9) (List.replicate 8 .save)).isSome = true := by
+  have a := C43_bookkeeping_partial 8 0 exGiven (List.replicate 9 .save ++ [.reopen] ++ List.replicate 6 .save) (by omega) (by omega)
+  have b := C43_bookkeeping 8 0 exGiven .fresh (List.replicate 9 .save ++ [.reopen] ++ List.replicate 6 .save) (by omega) (by omega)
+    (fun _ h => by omega)
+  have c := C43_bookkeeping 8 0 exGiven (.legacy 9) (List.replicate 8 .save) (by omega) (by omega) (fun _ h => by omega)
+  refine ⟨?_, ?_, ?_⟩
+  · revert a; cases run .asShipped 8 0 exGiven .fresh (List.replicate 9 .save ++ [.reopen] ++ List.replicate 6 .save) <;> simp
+  · revert b; cases run .sound 8 0 exGiven .fresh (List.replicate 9 .save ++ [.reopen] ++ List.replicate 6 .save) <;> simp
+  · revert c; cases run .sound 8 0 exGiven (.legacy 9) (List.replicate 8 .save) <;> simp
+
+/-- a missing cache entry does panic in the model (the error branch is kept): saving the last height of a section on a block store
+whose cache was never loaded -/
+example : saveBloomData 8 ⟨newMem, emptyStore⟩ 7 0 = none := by
+  simp [saveBloomData, newMem, emptyStore, collect]
 
 end OntVerif.Props.C43
